@@ -580,12 +580,18 @@ Proof.
   - intros t y ->. cbn [map forallb] in H. apply andb_true_iff in H. tauto.
 Qed.
 
+Lemma leaf_rules_41 x :
+  forallb (fun r : rule => snd r) (leaf_rules x) = true -> fst (leaves_ok 40 x) = true.
+Proof.
+  unfold leaf_rules. generalize (leaves_ok 40 x). intros [a b]. cbn [fst snd forallb].
+  intros H. apply andb_true_iff in H. tauto.
+Qed.
+
 Theorem uint_valid_spec : forall x,
   valid TUint x = true ->
   forall v m, uint_leaf x = Some (v, m) -> be_value v < be_value m.
 Proof.
-  intros x H. unfold valid in H. cbn [rules_of] in H. unfold leaf_rules in H.
-  cbn [forallb snd] in H. apply andb_true_iff in H. destruct H as [H _].
+  intros x H. unfold valid in H. cbn [rules_of] in H. apply leaf_rules_41 in H.
   exact (leaves_ok_here 39 x H).
 Qed.
 
@@ -595,8 +601,7 @@ Theorem generic_uint_leaves_spec : forall x,
   (forall v m, uint_leaf x = Some (v, m) -> be_value v < be_value m) /\
   (forall ps k y v m, x = Map ps -> In (k, y) ps -> uint_leaf y = Some (v, m) -> be_value v < be_value m).
 Proof.
-  intros x H. unfold valid in H. cbn [rules_of] in H. unfold leaf_rules in H.
-  cbn [forallb snd] in H. apply andb_true_iff in H. destruct H as [H _].
+  intros x H. unfold valid in H. cbn [rules_of] in H. apply leaf_rules_41 in H.
   split; [exact (leaves_ok_here 39 x H)|].
   intros ps k y v m -> Hin E.
   destruct (leaves_ok_sub 39 (Map ps) H) as [_ [Hm _]].
